@@ -111,11 +111,14 @@ pub const M_SWEEP_COLLECTED: u32 = 1 << site::SWEEP_COLLECTED;
 pub const M_SWEEP_PASS_DONE: u32 = 1 << site::SWEEP_PASS_DONE;
 pub const M_SWEEP_WAKE: u32 = 1 << site::SWEEP_WAKE;
 pub const M_RDB_KEY: u32 = 1 << site::RDB_KEY;
+pub const M_RDB_SHARED: u32 = 1 << site::RDB_SHARED_VALUE;
 
 fn install_panic_hook() {
     std::panic::set_hook(Box::new(|info| {
         let idx = TID.with(|t| t.get());
         let msg = format!("{}", info);
+        // a panic inside Server::from_config (start-up runs on the simulator thread) unwinds to boot()
+        if idx == NONE && world::active() && g().booting { world::log_event(&format!("panic during boot {}", msg)); return; }
         if idx == NONE || !world::active() {
             raw::write_all(2, format!("detsim: simulator thread panicked: {}\n", msg).as_bytes());
             raw::exit_group(2);
